@@ -69,25 +69,100 @@ impl Cls {
     }
 }
 
-#[derive(Clone, Copy, PartialEq, Eq, PartialOrd, Ord, Hash, Debug)]
-struct Key {
-    cls: Cls,
-    id: u32,
-}
+/// A key (or a scan prefix): ANY string, interned so that `Key` stays `Copy`.  Its class is what
+/// `SlabRouter::classify_key` computes from the string; its order is the byte-wise order of the
+/// strings (Rust's `String: Ord`, the model's `bleq`).
+#[derive(Clone, Copy, PartialEq, Eq, Hash, Debug)]
+struct Key(u32);
+
+static KEYS: Mutex<Vec<String>> = Mutex::new(Vec::new());
+
 impl Key {
+    fn of(s: &str) -> Key {
+        let mut t = KEYS.lock().unwrap();
+        if let Some(i) = t.iter().position(|x| x == s) {
+            return Key(i as u32);
+        }
+        t.push(s.to_string());
+        Key((t.len() - 1) as u32)
+    }
+    fn new(cls: Cls, id: u32) -> Key {
+        Key::of(&format!("{}{}", cls.prefix(), id))
+    }
     fn real(self) -> String {
-        format!("{}{}", self.cls.prefix(), self.id)
+        KEYS.lock().unwrap()[self.0 as usize].clone()
     }
+    /// mirror of `SlabRouter::classify_key`
+    fn cls(self) -> Cls {
+        let s = self.real();
+        if s.starts_with("emb:") {
+            Cls::E
+        } else if s.starts_with("node:") || s.starts_with("edge:") {
+            Cls::G
+        } else if s.starts_with("table:") {
+            Cls::T
+        } else if s.starts_with("_cache:") {
+            Cls::C
+        } else {
+            Cls::P
+        }
+    }
+    /// `<p|g|t|c|e><id>` for `user:<id>` / `node:<id>` / `table:<id>` / `_cache:<id>` / `emb:<id>`
+    /// (canonical decimal id), `x<hex of the UTF-8 bytes>` for every other string
     fn show(self) -> String {
-        format!("{}{}", self.cls.ch(), self.id)
-    }
-    fn from_real(s: &str) -> Option<Key> {
+        let s = self.real();
         for c in CLASSES {
             if let Some(rest) = s.strip_prefix(c.prefix()) {
-                return rest.parse().ok().map(|id| Key { cls: c, id });
+                let canonical = !rest.is_empty() && rest.bytes().all(|b| b.is_ascii_digit()) && (rest.len() == 1 || !rest.starts_with('0'));
+                if canonical {
+                    return format!("{}{}", c.ch(), rest);
+                }
             }
         }
-        None
+        format!("x{}", hex(s.as_bytes()))
+    }
+    /// as a scan prefix: `*` = "", a class letter = that class prefix, `x<hex>` otherwise
+    fn show_pfx(self) -> String {
+        let s = self.real();
+        if s.is_empty() {
+            return "*".into();
+        }
+        match CLASSES.iter().find(|c| c.prefix() == s) {
+            Some(c) => c.ch().to_string(),
+            None => format!("x{}", hex(s.as_bytes())),
+        }
+    }
+    fn from_real(s: &str) -> Key {
+        Key::of(s)
+    }
+    fn shard(self) -> usize {
+        self.real().as_bytes().first().map_or(0, |b| *b as usize % 16)
+    }
+}
+impl PartialOrd for Key {
+    fn partial_cmp(&self, o: &Key) -> Option<std::cmp::Ordering> {
+        Some(self.cmp(o))
+    }
+}
+impl Ord for Key {
+    fn cmp(&self, o: &Key) -> std::cmp::Ordering {
+        if self.0 == o.0 {
+            return std::cmp::Ordering::Equal;
+        }
+        self.real().cmp(&o.real())
+    }
+}
+
+/// mirror of `metadata_slab::next_prefix(..).is_some()` for a non-empty prefix: the prefix with its
+/// last byte plus one is UTF-8 (a `&str` has no `0xFF` byte)
+fn has_end_key(prefix: &str) -> bool {
+    let mut b = prefix.as_bytes().to_vec();
+    match b.pop() {
+        Some(last) if last < 0xff => {
+            b.push(last + 1);
+            String::from_utf8(b).is_ok()
+        }
+        _ => false,
     }
 }
 
@@ -156,7 +231,7 @@ enum Op {
     Get(Key),
     Del(Key),
     Ex(Key),
-    Scan(Option<Cls>),
+    Scan(Key),
     PutD(Key, Val),
     DelD(Key),
 }
@@ -169,8 +244,7 @@ impl Op {
             Op::Del(k) => format!("D,{}", k.show()),
             Op::DelD(k) => format!("DD,{}", k.show()),
             Op::Ex(k) => format!("E,{}", k.show()),
-            Op::Scan(None) => "S,*".to_string(),
-            Op::Scan(Some(c)) => format!("S,{}", c.ch()),
+            Op::Scan(p) => format!("S,{}", p.show_pfx()),
         }
     }
     fn key(&self) -> Option<Key> {
@@ -229,9 +303,24 @@ fn show_progs(progs: &[Vec<Op>]) -> String {
 }
 
 fn parse_key(s: &str) -> Option<Key> {
+    if let Some(h) = s.strip_prefix('x') {
+        if h.len() % 2 != 0 || !h.bytes().all(|b| b.is_ascii_hexdigit()) {
+            return None;
+        }
+        return String::from_utf8(unhex(h)).ok().map(|k| Key::of(&k));
+    }
     let c = s.chars().next()?;
     let cls = CLASSES.iter().copied().find(|x| x.ch() == c)?;
-    s[1..].parse().ok().map(|id| Key { cls, id })
+    s[1..].parse().ok().map(|id| Key::new(cls, id))
+}
+fn parse_pfx(s: &str) -> Option<Key> {
+    if s == "*" {
+        return Some(Key::of(""));
+    }
+    if s.len() == 1 {
+        return CLASSES.iter().find(|x| x.ch().to_string() == s).map(|c| Key::of(c.prefix()));
+    }
+    parse_key(s)
 }
 fn parse_val(s: &str) -> Option<Val> {
     let (a, b) = s.split_once('.')?;
@@ -256,8 +345,7 @@ fn parse_op(s: &str) -> Option<Op> {
         ["D", k] => Op::Del(parse_key(k)?),
         ["DD", k] => Op::DelD(parse_key(k)?),
         ["E", k] => Op::Ex(parse_key(k)?),
-        ["S", "*"] => Op::Scan(None),
-        ["S", c] => Op::Scan(Some(CLASSES.iter().copied().find(|x| x.ch().to_string() == *c)?)),
+        ["S", p] => Op::Scan(parse_pfx(p)?),
         _ => return None,
     })
 }
@@ -308,17 +396,7 @@ fn exec(store: &TensorStore, op: &Op) -> Res {
         },
         Op::Ex(k) => Res::Bool(store.exists(&k.real())),
         Op::Scan(p) => {
-            let mut ks: Vec<Key> = Vec::new();
-            let mut odd = Vec::new();
-            for s in store.scan(p.map_or("", |c| c.prefix())) {
-                match Key::from_real(&s) {
-                    Some(k) => ks.push(k),
-                    None => odd.push(s),
-                }
-            }
-            if !odd.is_empty() {
-                return Res::Other(format!("unparsable keys {odd:?}"));
-            }
+            let mut ks: Vec<Key> = store.scan(&p.real()).iter().map(|s| Key::from_real(s)).collect();
             ks.sort();
             ks.dedup();
             Res::Keys(ks)
@@ -392,28 +470,25 @@ fn show_entry(e: &WalEntry) -> String {
     match e {
         WalEntry::MetadataSet { key, data } => format!(
             "MS:{}:{}",
-            Key::from_real(key).map_or(key.clone(), |k| k.show()),
+            Key::from_real(key).show(),
             Val::of_data(data).show()
         ),
-        WalEntry::MetadataDelete { key } => format!("MD:{}", Key::from_real(key).map_or(key.clone(), |k| k.show())),
+        WalEntry::MetadataDelete { key } => format!("MD:{}", Key::from_real(key).show()),
         WalEntry::EmbeddingSet { entity_id, embedding } => {
             let v = Val { tag: 0, vec: Val::of_vec(embedding) }.show();
             format!("ES:{}:{}", entity_id.as_u64(), &v[2..])
         }
         WalEntry::EmbeddingDelete { entity_id } => format!("ED:{}", entity_id.as_u64()),
-        WalEntry::EntityRemove { key } => format!("ER:{}", Key::from_real(key).map_or(key.clone(), |k| k.show())),
+        WalEntry::EntityRemove { key } => format!("ER:{}", Key::from_real(key).show()),
         other => format!("other:{other:?}").replace([' ', ','], "_"),
     }
 }
 
 fn site_key(site: &str, key: &str) -> String {
     if site == "store.scan" {
-        if key.is_empty() {
-            return "*".into();
-        }
-        return CLASSES.iter().find(|c| c.prefix() == key).map_or(key.to_string(), |c| c.ch().to_string());
+        return Key::of(key).show_pfx();
     }
-    Key::from_real(key).map_or(key.to_string(), |k| k.show())
+    Key::of(key).show()
 }
 
 /// `pick(step_index, parked thread ids)` → thread id to run (must be one of the parked ones).
@@ -641,13 +716,13 @@ fn run_real(progs: &[Vec<Op>], wal: Option<SyncMode>, respect_lock: bool, exclus
 
 type SpecState = BTreeMap<Key, Val>;
 
-fn spec_ok(st: &SpecState, op: &Op, res: &Res) -> bool {
+fn spec_ok(st: &SpecState, op: &Op, res: &Res, relax: bool) -> bool {
     match op {
         Op::Put(..) | Op::PutD(..) => *res == Res::Ok,
         Op::Get(k) => match (st.get(k), res) {
             (Some(v), Res::Found(w)) => v == w,
             (None, Res::Nf) => true,
-            (Some(_), Res::Nf) => k.cls == Cls::C, // cache: latest value or absent
+            (Some(_), Res::Nf) => k.cls() == Cls::C, // cache: latest value or absent
             _ => false,
         },
         Op::Del(k) | Op::DelD(k) => match (st.contains_key(k), res) {
@@ -655,12 +730,17 @@ fn spec_ok(st: &SpecState, op: &Op, res: &Res) -> bool {
             _ => false,
         },
         Op::Ex(k) => match res {
-            Res::Bool(b) => *b == st.contains_key(k) || (!*b && k.cls == Cls::C),
+            Res::Bool(b) => *b == st.contains_key(k) || (!*b && k.cls() == Cls::C),
             _ => false,
         },
         Op::Scan(p) => match res {
             Res::Keys(ks) => {
-                let want: Vec<Key> = st.keys().copied().filter(|k| p.map_or(true, |c| k.cls == c)).collect();
+                let pfx = p.real();
+                let exact = |k: &Key| k.real().starts_with(&pfx);
+                // `relax`: what `MetadataSlab::scan` does on a prefix without an end key - besides
+                // the keys that start with it, every metadata key of its shard above it
+                let rest = |k: &Key| relax && !pfx.is_empty() && !has_end_key(&pfx) && k.cls() != Cls::C && k.shard() == p.shard() && k.real() >= pfx;
+                let want: Vec<Key> = st.keys().copied().filter(|k| exact(k) || rest(k)).collect();
                 *ks == want
             }
             _ => false,
@@ -679,7 +759,7 @@ fn spec_apply(st: &mut SpecState, op: &Op) {
     }
 }
 
-fn wg(recs: &[HRec], done: u64, st: &mut SpecState, seen: &mut HashSet<(u64, Vec<(Key, Val)>)>, nodes: &mut u64) -> bool {
+fn wg(recs: &[HRec], done: u64, st: &mut SpecState, seen: &mut HashSet<(u64, Vec<(Key, Val)>)>, nodes: &mut u64, relax: bool) -> bool {
     if done.count_ones() as usize == recs.len() {
         return true;
     }
@@ -696,12 +776,12 @@ fn wg(recs: &[HRec], done: u64, st: &mut SpecState, seen: &mut HashSet<(u64, Vec
         if done & (1 << j) != 0 || r.inv > min_ret {
             continue;
         }
-        if !spec_ok(st, &r.op, &r.res) {
+        if !spec_ok(st, &r.op, &r.res, relax) {
             continue;
         }
         let saved = r.op.key().map(|k| (k, st.get(&k).copied()));
         spec_apply(st, &r.op);
-        if wg(recs, done | (1 << j), st, seen, nodes) {
+        if wg(recs, done | (1 << j), st, seen, nodes, relax) {
             return true;
         }
         if let Some((k, old)) = saved {
@@ -718,10 +798,23 @@ fn wg(recs: &[HRec], done: u64, st: &mut SpecState, seen: &mut HashSet<(u64, Vec
     false
 }
 
-fn linearizable(recs: &[HRec]) -> (bool, bool) {
+fn linearizable_with(recs: &[HRec], relax: bool) -> (bool, bool) {
     let mut nodes = 0;
-    let ok = wg(recs, 0, &mut BTreeMap::new(), &mut HashSet::new(), &mut nodes);
+    let ok = wg(recs, 0, &mut BTreeMap::new(), &mut HashSet::new(), &mut nodes, relax);
     (ok, nodes > 2_000_000)
+}
+fn linearizable(recs: &[HRec]) -> (bool, bool) {
+    linearizable_with(recs, false)
+}
+
+/// the scans of the history whose prefix has no end key (`next_prefix` = `None`)
+fn scans_without_end_key(recs: &[HRec]) -> Vec<String> {
+    recs.iter()
+        .filter_map(|r| match r.op {
+            Op::Scan(p) if !p.real().is_empty() && !has_end_key(&p.real()) => Some(p.real()),
+            _ => None,
+        })
+        .collect()
 }
 
 /// When the history is not linearizable: the key class that alone explains it (`scan` when only
@@ -738,7 +831,7 @@ fn classify_nonlin(recs: &[HRec]) -> (String, Option<String>) {
                 })
                 .collect();
             if !puts.contains(v) && puts.iter().any(|p| p.tag == v.tag) && puts.iter().any(|p| p.vec == v.vec && p.tag != v.tag) {
-                return (k.cls.name().to_string(), Some(format!("get {} returned {} = metadata of one put, vector of another", k.show(), v.show())));
+                return (k.cls().name().to_string(), Some(format!("get {} returned {} = metadata of one put, vector of another", k.show(), v.show())));
             }
         }
     }
@@ -746,7 +839,7 @@ fn classify_nonlin(recs: &[HRec]) -> (String, Option<String>) {
     for k in keys {
         let proj: Vec<HRec> = recs.iter().filter(|r| r.op.key() == Some(k)).cloned().collect();
         if !linearizable(&proj).0 {
-            return (k.cls.name().to_string(), None);
+            return (k.cls().name().to_string(), None);
         }
     }
     ("scan".to_string(), None)
@@ -757,7 +850,7 @@ fn classify_nonlin(recs: &[HRec]) -> (String, Option<String>) {
 fn emb_ops_overlap(recs: &[HRec]) -> bool {
     recs.iter().enumerate().any(|(i, a)| {
         recs.iter().skip(i + 1).any(|b| {
-            a.t != b.t && a.op.key().map_or(false, |k| k.cls == Cls::E) && a.op.key() == b.op.key() && a.inv <= b.ret && b.inv <= a.ret
+            a.t != b.t && a.op.key().map_or(false, |k| k.cls() == Cls::E) && a.op.key() == b.op.key() && a.inv <= b.ret && b.inv <= a.ret
         })
     })
 }
@@ -771,7 +864,7 @@ impl Gen {
     fn val(&mut self, r: &mut Rng, k: Key) -> Val {
         self.next_tag += 1;
         let t = self.next_tag;
-        let vec = if k.cls == Cls::E {
+        let vec = if k.cls() == Cls::E {
             match r.below(10) {
                 0..=5 => VecF::Good(t),
                 6 => VecF::Bad(t),
@@ -789,7 +882,7 @@ impl Gen {
     fn progs(&mut self, r: &mut Rng, durable: bool, classes: &[Cls], nthreads: usize) -> Vec<Vec<Op>> {
         // a few contended keys
         let nkeys = 1 + r.below(3) as usize;
-        let keys: Vec<Key> = (0..nkeys).map(|_| Key { cls: *r.pick(classes), id: 1 + r.below(2) as u32 }).collect();
+        let keys: Vec<Key> = (0..nkeys).map(|_| Key::new(*r.pick(classes), 1 + r.below(2) as u32)).collect();
         (0..nthreads)
             .map(|_| {
                 let n = 1 + r.below(3) as usize;
@@ -805,8 +898,8 @@ impl Gen {
                             35..=64 => Op::Get(k),
                             65..=79 => if dur { Op::DelD(k) } else { Op::Del(k) },
                             80..=89 => Op::Ex(k),
-                            90..=96 => Op::Scan(Some(k.cls)),
-                            _ => Op::Scan(None),
+                            90..=96 => Op::Scan(Key::of(k.cls().prefix())),
+                            _ => Op::Scan(Key::of("")),
                         }
                     })
                     .collect()
@@ -826,7 +919,7 @@ impl Gen {
                 let n = 1 + r.below(2) as usize;
                 (0..n)
                     .map(|_| {
-                        let k = Key { cls, id: 1 + r.below(u64::from(nkeys)) as u32 };
+                        let k = Key::new(cls, 1 + r.below(u64::from(nkeys)) as u32);
                         match r.below(100) {
                             0..=41 => {
                                 self.next_tag += 1;
@@ -835,7 +928,7 @@ impl Gen {
                             42..=83 => Op::DelD(k),
                             84..=91 => Op::Get(k),
                             92..=95 => Op::Ex(k),
-                            _ => Op::Scan(Some(cls)),
+                            _ => Op::Scan(Key::of(cls.prefix())),
                         }
                     })
                     .collect()
@@ -933,7 +1026,7 @@ impl Ctx<'_> {
             self.rep.hit(&format!("site:{s}"));
         }
         for r in &o.hist {
-            let c = r.op.key().map_or("scan", |k| k.cls.name());
+            let c = r.op.key().map_or("scan", |k| k.cls().name());
             self.rep.hit(&format!("op:{}:{}", r.op.kind(), c));
             self.rep.hit(&format!("res:{}", match &r.res { Res::Ok => "ok", Res::Nf => "not_found", Res::Found(_) => "found", Res::Bool(true) => "true", Res::Bool(false) => "false", Res::Keys(_) => "keys", Res::Other(_) => "other" }));
             if r.ret > r.inv + 0 && o.hist.iter().any(|q| q.t != r.t && q.inv <= r.ret && r.inv <= q.ret) {
@@ -1041,14 +1134,14 @@ impl Ctx<'_> {
         for k in &incoherent {
             let wrote_vec_durably = progs.iter().flatten().any(|op| matches!(op, Op::PutD(k2, v) if k2 == k && v.vec != VecF::N));
             let key_ops: Vec<HRec> = hist.iter().filter(|r| r.op.key() == Some(*k)).cloned().collect();
-            let class = if k.cls != Cls::E && k.cls != Cls::C && wrote_vec_durably {
+            let class = if k.cls() != Cls::E && k.cls() != Cls::C && wrote_vec_durably {
                 "tensor_store.slab_router.put_durable/non_emb_key_with_vector_stays_in_scan_after_delete".to_string()
-            } else if k.cls == Cls::E && emb_ops_overlap(&key_ops) {
+            } else if k.cls() == Cls::E && emb_ops_overlap(&key_ops) {
                 // operations on the key overlapped: the final reads extend the history of the key to
                 // one that no sequential order explains (get says absent, exists / scan say present)
                 "tensor_store/emb_history_not_linearizable".to_string()
             } else {
-                format!("tensor_store.slab_router/quiescent_{}_key_get_exists_scan_disagree", k.cls.name())
+                format!("tensor_store.slab_router/quiescent_{}_key_get_exists_scan_disagree", k.cls().name())
             };
             self.violation(
                 &class,
@@ -1059,7 +1152,7 @@ impl Ctx<'_> {
         if incoherent.is_empty() {
             self.rep.hit("oracle:quiescent_views_coherent");
         }
-        let stale_scan = progs.iter().flatten().any(|op| matches!(op, Op::PutD(k, v) if k.cls != Cls::E && k.cls != Cls::C && v.vec != VecF::N));
+        let stale_scan = progs.iter().flatten().any(|op| matches!(op, Op::PutD(k, v) if k.cls() != Cls::E && k.cls() != Cls::C && v.vec != VecF::N));
         if !ok {
             let (cls, mix) = classify_nonlin(&hist);
             if cls == "scan" && mix.is_none() && stale_scan {
@@ -1103,7 +1196,7 @@ impl Ctx<'_> {
             .iter()
             .flatten()
             .filter_map(|op| match op {
-                Op::Put(k, _) | Op::Del(k) if k.cls != Cls::C => Some(*k),
+                Op::Put(k, _) | Op::Del(k) if k.cls() != Cls::C => Some(*k),
                 _ => None,
             })
             .collect();
@@ -1111,7 +1204,7 @@ impl Ctx<'_> {
         let checked: Vec<Key> = o
             .mem_view
             .keys()
-            .filter(|k| k.cls != Cls::C && !incoherent.contains(k) && (all_durable || (k.cls != Cls::E && !nondurably_written.contains(k))))
+            .filter(|k| k.cls() != Cls::C && !incoherent.contains(k) && (all_durable || (k.cls() != Cls::E && !nondurably_written.contains(k))))
             .copied()
             .collect();
         if checked.is_empty() {
@@ -1155,7 +1248,7 @@ impl Ctx<'_> {
                 "concurrent durable writes of one key were logged in one order and applied in memory in another: after a crash at quiescence the store recovers a value readers had already seen overwritten",
                 input,
             );
-        } else if k.cls == Cls::E {
+        } else if k.cls() == Cls::E {
             self.violation(
                 "tensor_store/emb_history_not_linearizable",
                 "durable writers of one emb: key interleaved their index / vector / metadata sub-steps: the quiescent in-memory value is not the last logged one (recovered state differs)",
@@ -1240,7 +1333,7 @@ fn main() {
             }
         }
         for cls in [Cls::P, Cls::G, Cls::T] {
-            let k = Key { cls, id: 1 };
+            let k = Key::new(cls, 1);
             let (pd, dd) = (|t: u32| Op::PutD(k, v(t)), Op::DelD(k));
             // (programs, grants); W = the grant of the thread that then waits for the mutex
             let scenarios: Vec<(&str, Vec<Vec<Op>>, Vec<usize>)> = vec![
@@ -1319,7 +1412,7 @@ fn main() {
             (Some(progs), true) => ctx.mutex_probe(&progs, &parse_sched(f[2])),
             _ => ctx.rep.disagree("witness.driver", json!({"witness": "durable_order"}), "", &w),
         }
-        let k = Key { cls: Cls::G, id: 1 };
+        let k = Key::new(Cls::G, 1);
         let (v1, v2) = (Val { tag: 1, vec: VecF::N }, Val { tag: 2, vec: VecF::N });
         // A: put, then delete-log;  B: put-log (must block), A: delete-apply, B: put-apply
         ctx.mutex_probe(&[vec![Op::PutD(k, v1), Op::DelD(k)], vec![Op::PutD(k, v2)]], &[0, 0, 0, 1, 1, 0]);
@@ -1328,8 +1421,8 @@ fn main() {
     // ---- the known findings, each by a directed schedule (deterministic for every seed)
     {
         let mut r = root.fork("known");
-        let e1 = Key { cls: Cls::E, id: 1 };
-        let p1 = Key { cls: Cls::P, id: 1 };
+        let e1 = Key::new(Cls::E, 1);
+        let p1 = Key::new(Cls::P, 1);
         let g = |t: u32| Val { tag: t, vec: VecF::Good(t) };
         // two overlapping deletes of emb:1 both succeed (the second passes the existence check
         // between the first one's slab delete and its index removal)
@@ -1345,7 +1438,7 @@ fn main() {
         // not yet stored vector and metadata
         ctx.case(
             "directed.known.scan_sees_emb_key_before_metadata",
-            &[vec![Op::Put(e1, g(1))], vec![Op::Scan(Some(Cls::E)), Op::Get(e1)]],
+            &[vec![Op::Put(e1, g(1))], vec![Op::Scan(Key::of(Cls::E.prefix())), Op::Get(e1)]],
             None,
             Some(&[0, 1, 1, 1, 0, 0]),
             &mut r,
@@ -1354,7 +1447,7 @@ fn main() {
         // sequential: put_durable of user:1 with a vector, delete_durable, scan still lists it
         ctx.case(
             "directed.known.nonemb_vector_key_deleted_still_scanned",
-            &[vec![Op::PutD(p1, g(1)), Op::Get(p1), Op::DelD(p1), Op::Get(p1), Op::Ex(p1), Op::Scan(Some(Cls::P))]],
+            &[vec![Op::PutD(p1, g(1)), Op::Get(p1), Op::DelD(p1), Op::Get(p1), Op::Ex(p1), Op::Scan(Key::of(Cls::P.prefix()))]],
             Some(SyncMode::Immediate),
             None,
             &mut r,
@@ -1368,14 +1461,14 @@ fn main() {
         let mut g = Gen { next_tag: 0 };
         for c in CLASSES {
             for durable in [false, true] {
-                let k = Key { cls: c, id: 1 };
+                let k = Key::new(c, 1);
                 let v1 = g.val(&mut r, k);
                 let v2 = Val { tag: v1.tag + 1000, vec: VecF::Good(v1.tag + 1000) };
                 let v3 = Val { tag: v1.tag + 2000, vec: VecF::Bad(7) };
                 let (p, d): (fn(Key, Val) -> Op, fn(Key) -> Op) = if durable { (Op::PutD, Op::DelD) } else { (Op::Put, Op::Del) };
-                let seq = vec![vec![Op::Get(k), Op::Ex(k), d(k), p(k, v1), Op::Get(k), Op::Ex(k), Op::Scan(Some(c)), Op::Scan(None), p(k, v2), Op::Get(k), p(k, v3), Op::Get(k), d(k), Op::Get(k), Op::Ex(k), Op::Scan(Some(c)), d(k)]];
+                let seq = vec![vec![Op::Get(k), Op::Ex(k), d(k), p(k, v1), Op::Get(k), Op::Ex(k), Op::Scan(Key::of(c.prefix())), Op::Scan(Key::of("")), p(k, v2), Op::Get(k), p(k, v3), Op::Get(k), d(k), Op::Get(k), Op::Ex(k), Op::Scan(Key::of(c.prefix())), d(k)]];
                 ctx.case("directed.sequential", &seq, if durable { Some(SyncMode::Immediate) } else { None }, None, &mut r, true);
-                let two = vec![vec![p(k, v1), Op::Get(k), d(k)], vec![p(k, v2), Op::Ex(k), Op::Scan(Some(c)), Op::Get(k)]];
+                let two = vec![vec![p(k, v1), Op::Get(k), d(k)], vec![p(k, v2), Op::Ex(k), Op::Scan(Key::of(c.prefix())), Op::Get(k)]];
                 for _ in 0..(6 * scale) {
                     ctx.case("directed.two_threads", &two, if durable { Some(SyncMode::Manual) } else { None }, None, &mut r, true);
                 }
